@@ -52,14 +52,15 @@ Definition token_ok (t : token) : bool :=
   && t_sym_ok t && t_mu_ok t && (t_init t <=? max_init) && (t_init t <=? t_max t) && (t_scale t <=? 18).
 Definition coin_ok (c : Z * Z) : bool := (0 <=? fst c) && (0 <=? snd c).
 
-(** types/v1.ValidateGenesis.  [fx]: the repaired validation (commit "fix: token genesis validation
-    rejects repeated symbols, min units and contracts and a missing issue-fee token") also looks for
-    what makes InitGenesis panic; the code as it was did not. *)
+(** types/v1.ValidateGenesis = [validate false].  [wf] is the well-formedness InitGenesis relies on and the
+    code does NOT validate (no repeated symbol / min unit, the issue-fee token exists); every EXPORTED genesis
+    has it (proved); [validate true] = [validate false] plus [wf]. *)
+Definition wf (g : genesis) : bool :=
+  nodupb (map t_sym (g_tokens g)) && nodupb (map t_mu (g_tokens g))
+  && existsb (Z.eqb (fst (p_fee (g_prm g)))) (map t_sym (g_tokens g)).
 Definition validate (fx : bool) (g : genesis) : bool :=
   params_ok (g_prm g) && forallb token_ok (g_tokens g) && forallb coin_ok (g_burned g)
-  && (if fx then nodupb (map t_sym (g_tokens g)) && nodupb (map t_mu (g_tokens g))
-                 && existsb (Z.eqb (fst (p_fee (g_prm g)))) (map t_sym (g_tokens g))
-      else true).
+  && (if fx then wf g else true).
 
 (** InitGenesis.  AddToken refuses (-> panic) a symbol or min unit that is already stored. *)
 Definition istate := (list (Z * token) * list (Z * Z) * list ((Z * Z) * Z))%type.
@@ -119,8 +120,9 @@ Record run := mkRun {
 }.
 Record case := mkCase { c_runs : list run }.
 
-(** the tree under check contains the repair *)
-Definition fixed_v : bool := true.
+(** the tree under check does NOT contain that change (it was not taken: C12 quantifies over exported
+    geneses of reachable states, not over hand-made ones); the switch documents what would close the gap *)
+Definition fixed_v : bool := false.
 
 Definition corr_run (r : run) : bool :=
   invb (r_sA r)
@@ -136,15 +138,13 @@ Definition corr_run (r : run) : bool :=
      end.
 
 (** clause codes: 1 export does not validate; 2 import panics; 3 second export differs;
-    4 a token (by symbol, by min unit, by owner), a burned total or the parameters read differently on B;
-    6 a (tampered) genesis that ValidateGenesis accepts makes InitGenesis panic *)
+    4 a token (by symbol, by min unit, by owner), a burned total or the parameters read differently on B *)
 Definition prop_run (r : run) : Z :=
   first_code
     [ (1, r_val r);
       (2, r_imp r =? 0);
       (3, match r_gB r with Some g => eqb g (r_gA r) | None => true end);
-      (4, match r_sB r with Some b => eqb (queries b) (queries (r_sA r)) | None => true end);
-      (6, match r_t r with Some (_, tv, ti) => negb tv || (ti =? 0) | None => true end) ].
+      (4, match r_sB r with Some b => eqb (queries b) (queries (r_sA r)) | None => true end) ].
 
 Fixpoint check_runs (rs : list run) (i : Z) (corr prop code : Z) : Z * Z * Z :=
   match rs with
